@@ -65,9 +65,6 @@ func (sn *Snap) FacesSettled() (bool, string) {
 			if v.FaceId != s.FaceID(i, j) {
 				return false, fmt.Sprintf("r%d has not heard r%d on its re-created face %d yet (entry says %d)", i, j, s.FaceID(i, j), v.FaceId)
 			}
-			if CanonFaces && sn.relAt(i, v) == "fresh<" {
-				return false, fmt.Sprintf("r%d holds r%d's current advertisement under an older sequence number: the next sync Interest triggers a fetch", i, j)
-			}
 			if v.Active == s.Passive[[2]int{i, j}] {
 				return false, fmt.Sprintf("r%d has not heard r%d since it changed between passive and explicitly configured neighbour", i, j)
 			}
@@ -238,6 +235,29 @@ func (sn *Snap) Knows(i, j int) bool {
 	for _, v := range sn.nb[i] {
 		if sn.s.IdxH(v.NameH) == j {
 			return true
+		}
+	}
+	return false
+}
+
+// NothingToHear reports whether the exchange X(i<j) would change nothing but bookkeeping: Fresh(i,j),
+// or - configurations with CanonFaces, whose canonical form also says whether the recorded sequence
+// number is behind ("fresh<") - i holds j's current advertisement on the face and in the role j is
+// heard now, under an older number: the sync Interest triggers a fetch that brings what i has.
+// (Which operations are enabled must not depend on the sequence numbers themselves: code under test
+// that bumps them in a map-iteration-dependent way would make histories irreproducible, which is for
+// C18.unique to report and not for the search to stumble over.)
+func (sn *Snap) NothingToHear(i, j int) bool {
+	if sn.Fresh(i, j) {
+		return true
+	}
+	s := sn.s
+	if !CanonFaces || s.HeldAt(i) {
+		return false
+	}
+	for _, v := range sn.nb[i] {
+		if s.IdxH(v.NameH) == j {
+			return sn.relAt(i, v) == "fresh<" && (v.FaceId == s.FaceID(i, j) || s.Parallel[key(i, j)]) && v.Active == !s.Passive[[2]int{i, j}]
 		}
 	}
 	return false
